@@ -65,6 +65,8 @@ fn main() {
         let m = gen::gen_class(rng, &cfg);
         let feats = features::features(&m);
         if m.methods.iter().any(|x| x.name.ascii() == Some("siblings$dyn")) { rep.count("shape.sibling_dynamics"); }
+        { let deep = |a: &Vec<Annotation>| a.iter().any(|x| x.type_.ascii() == Some("Ldeep/Anno;"));
+          if deep(&m.vis_annotations) || deep(&m.invis_annotations) || m.fields.iter().any(|f| deep(&f.vis_annotations) || deep(&f.invis_annotations)) || m.methods.iter().any(|f| deep(&f.vis_annotations) || deep(&f.invis_annotations)) { rep.count("shape.annotation_nested_40_to_200_levels"); } }
         let mut any = false;
         for li in 0..3u64 {
             let layout = if li == 0 { emit::Layout::canonical() } else { let mut l = emit::Layout::random(rng.next_u64()); if rng.chance(1, 4) { l.pool_filler = 250 + rng.below(20); } l };
@@ -154,6 +156,7 @@ fn main() {
         meta.oblige("locals in all three index classes", rep.seen_n("local") >= 3);
         meta.oblige("tables with 32767 or more entries were read (interfaces, inner classes, NestMembers, PermittedSubclasses, Exceptions, line numbers, local variables, exception table)", ["interfaces", "inner_classes", "nest_members", "permitted_subclasses", "method.exceptions", "code.line_numbers", "code.lvt", "code.exception_table"].iter().all(|k| rep.get(&format!("big.over_32766.{k}")) > 0));
         meta.oblige("methods with dynamic constants / call sites sharing one bootstrap method entry", rep.get("shape.sibling_dynamics") > 0);
+        meta.oblige("classes with an annotation nested 40..200 levels deep", rep.get("shape.annotation_nested_40_to_200_levels") >= 20);
         meta.oblige("attribute payloads larger than 65536 bytes were read at class, field, method and Code level and as SourceDebugExtension", rep.get("large.over_65536") >= 30 && ["large.class.unknown", "large.class.source_debug_extension", "large.field.unknown", "large.method.unknown", "large.code.unknown"].iter().all(|k| rep.get(k) > 0));
     }
     std::process::exit(finish(&ctx, rep, meta));
